@@ -59,25 +59,42 @@ class Pool:
             regions, _ = carts.random_regions(rng, 'uniform')
             regions['music'] = rc.music_mask(regions['music'])
             code = carts.simple_lua(rng, rng.choice((30, 200, 900)))
-            p = os.path.join(root, 'src%d.p8' % i)
+            p = os.path.join(root, '%s-s%d.p8' % (carts.cart_basename(i * 3 + rng.randrange(3)), i))
+            trim, omit = (), ()
+            if i >= 2:
+                # written the way current PICO-8 writes carts: sections without their trailing default rows, or left out
+                from pico8.game.game import Game
+                empty = carts.game_regions(Game.make_empty_game())
+                rowbytes = {'gfx': 64, 'gff': 128, 'map': 128, 'music': 4, 'sfx': 68}
+                trim = ('gfx', 'gff', 'map', 'music', 'sfx') if i == 2 else ('gfx', 'map', 'sfx')
+                omit = () if i == 2 else ('gff', 'music')
+                for n in trim:
+                    nrows = len(regions[n]) // rowbytes[n]
+                    keep = max(1, rng.randrange(nrows)) * rowbytes[n]
+                    regions[n] = bytes(regions[n][:keep]) + bytes(empty[n][keep:])
+                for n in omit:
+                    regions[n] = bytes(empty[n])
             with open(p, 'wb') as fh:
-                fh.write(rc.write_p8(regions, code, version=rng.choice((8, 16, 33)),
+                fh.write(rc.write_p8(regions, code, version=rng.choice((8, 16, 33)), trim=trim, omit=omit,
                                      label=carts.random_bytes(rng, 8192) if i % 2 else None))
-            self.items['p8'].append({'path': p, 'regions': regions, 'code': code})
+            self.items['p8'].append({'path': p, 'regions': regions, 'code': code, 'trimmed': bool(trim)})
             regions, _ = carts.random_regions(rng, 'uniform')
             regions['music'] = rc.music_mask(regions['music'])
             code = carts.simple_lua(rng, rng.choice((30, 200, 900)))
             area = rc.raw_code_area(code) if i % 2 else rc.code_area_from_items(rc.c_greedy(code), len(code))
-            p = os.path.join(root, 'src%d.p8.png' % i)
+            p = os.path.join(root, '%s-s%d.p8.png' % (carts.cart_basename(i * 3 + 1 + rng.randrange(3)), i))
             rows = [bytearray(carts.random_bytes(rng, rc.CART_W * 4)) for _ in range(rc.CART_H)]
             with open(p, 'wb') as fh:
                 fh.write(rc.write_p8png(regions, area, rng.choice((8, 16, 33)), base_rows=rows))
             self.items['png'].append({'path': p, 'regions': regions, 'code': code})
             code = carts.simple_lua(rng, rng.choice((30, 300)))
-            p = os.path.join(root, 'main%d.lua' % i)
+            if i % 2:
+                # a library-style main file: the chunk ends in a return statement (it is code like any other)
+                code = code + rng.choice((b'return vec\n', b'-- export\nreturn {v=1}\n', b'do return end\n', b'return'))
+            p = os.path.join(root, '%s-m%d.lua' % (carts.cart_basename(i * 3 + 2), i))
             with open(p, 'wb') as fh:
                 fh.write(code)
-            self.items['lua'].append({'path': p, 'code': code})
+            self.items['lua'].append({'path': p, 'code': code, 'returns': bool(i % 2)})
 
 
 def empty_defaults():
@@ -138,8 +155,10 @@ def run_build(ctx, rng, pool, root, assign, out_state, out_fmt, lua_from_file, r
     if rng.random() < 0.25:
         refresh_source(rng, pool)
         ctx.feature('source_rewritten_in_place')
-    out = os.path.join(root, 'out.p8' if out_fmt == 'p8' else 'out.p8.png')
-    for f in (os.path.join(root, 'out.p8'), os.path.join(root, 'out.p8.png')):
+    outbase = rng.choice(('out', 'out', 'game-1.2', 'my out', 'out.v2', 'x.p8.bak'))
+    ctx.feature('out_name:' + outbase)
+    out = os.path.join(root, outbase + ('.p8' if out_fmt == 'p8' else '.p8.png'))
+    for f in (os.path.join(root, outbase + '.p8'), os.path.join(root, outbase + '.p8.png')):
         if os.path.exists(f):
             os.remove(f)
     prev = None
@@ -181,6 +200,10 @@ def run_build(ctx, rng, pool, root, assign, out_state, out_fmt, lua_from_file, r
                 src = rng.choice(pool.items[choice])
                 expected[sec] = src['code'] if sec == 'lua' else src['regions'][sec]
             argv += ['--' + sec, src['path']]
+            if src.get('trimmed') and sec != 'lua':
+                ctx.feature('section_from_p8_with_short_sections')
+            if src.get('returns'):
+                ctx.feature('lua_file_ending_in_return')
             used_files[os.path.basename(src['path'])] = open(src['path'], 'rb').read()
     case = {'argv': [os.path.basename(a) if os.sep in a else a for a in argv[2:]], 'assign': desc,
             'out_state': out_state if exists else 'absent', 'out_fmt': out_fmt, 'files': used_files,
@@ -463,7 +486,7 @@ def replay(case, ctx):
             ref = rc.read_p8png(data)
             got = {s: ref[s] for s in SECTIONS if s != 'lua'}
             got['lua'] = rc.decode_code_area(ref['code_area'], ref['version'])
-            prev = case.get('files', {}).get('out.p8.png')
+            prev = case.get('files', {}).get(os.path.basename(out))
             if prev is not None and rc.upper_bits(ref['rows']) != rc.upper_bits(rc.read_p8png(prev)['rows']):
                 ctx.violation('.p8.png OUT label picture differs from its previous picture', case)
                 return
@@ -497,6 +520,9 @@ def gates(m, tier):
             missed.append('error class %s: %d' % (k, f.get('error:' + k, 0)))
     if tier == 'thorough' and f.get('matrix_assignments', 0) != 4096:
         missed.append('matrix assignments run: %d of 4096' % f.get('matrix_assignments', 0))
+    if f.get('section_from_p8_with_short_sections', 0) < 10 or f.get('lua_file_ending_in_return', 0) < 5:
+        missed.append('sections from .p8 sources with short sections: %d; lua files ending in return: %d' % (
+            f.get('section_from_p8_with_short_sections', 0), f.get('lua_file_ending_in_return', 0)))
     if f.get('arguments_object_reused', 0) < 20:
         missed.append('builds with a reused arguments object: %d' % f.get('arguments_object_reused', 0))
     if f.get('relative_paths', 0) < 20 or f.get('failed_build_before', 0) < 5:
